@@ -181,14 +181,18 @@ type RenderScn struct {
 }
 
 type WalkScn struct {
-	PreNil    bool   `json:"pre_nil,omitempty"`
-	PostNil   bool   `json:"post_nil,omitempty"`
-	View      string `json:"view"` // default | virtual-root | reversed | filtered
-	Block     int    `json:"block"`
-	RootPath  []int  `json:"root_path,omitempty"` // child indices (mod count) from the root block down to the node the walk starts at
-	HideSeed  uint64 `json:"hide_seed,omitempty"`
-	Tape      string `json:"tape"` // '1' = descend/continue, '0' = prune/abort; beyond the end: '1'
-	Reentrant bool   `json:"reentrant,omitempty"`
+	PreNil   bool   `json:"pre_nil,omitempty"`
+	PostNil  bool   `json:"post_nil,omitempty"`
+	View     string `json:"view"` // default | virtual-root | reversed | filtered
+	Block    int    `json:"block"`
+	RootPath []int  `json:"root_path,omitempty"` // child indices (mod count) from the root block down to the node the walk starts at
+	HideSeed uint64 `json:"hide_seed,omitempty"`
+	Tape     string `json:"tape"` // '1' = descend/continue, '0' = prune/abort; beyond the end: '1'
+	// TapeSkip: the first TapeSkip callbacks are answered '1' before the tape
+	// starts, so that a prune / abort / panic can fall tens of thousands of
+	// callbacks into the walk of a very wide tree
+	TapeSkip  int  `json:"tape_skip,omitempty"`
+	Reentrant bool `json:"reentrant,omitempty"`
 	// SameOpts: the nested (re-entrant) walks are given the very same
 	// *WalkOptions value as the outer walk
 	SameOpts bool `json:"same_opts,omitempty"`
